@@ -9,7 +9,7 @@ from odxgen import values as V
 ID = "C01"
 # LEAN_TARGETS / THEOREMS: filled in by the author of lean/OdxVerif/Model/Codec.lean + Props/C01.lean
 # (planned: OdxVerif.Props.C01, theorems OdxVerif.Codec.C01_roundtrip[_partial], …)
-LEAN_TARGETS = ['OdxVerif.Props.C01', 'OdxVerif.Props.C01Fields', 'OdxVerif.Props.C01Nested']
+LEAN_TARGETS = ['OdxVerif.Props.C01', 'OdxVerif.Props.C01Fields', 'OdxVerif.Props.C01Nested', 'OdxVerif.Props.C01Compu']
 DRIVERS = ["drv_codec"]
 THEOREMS = ["OdxVerif.Codec." + t for t in ['C01_roundtrip_struct', 'C01_roundtrip_mux', 'C01_mux_default_key', 'MuxLeaf.sel_of_case', 'MuxLeaf.sel_of_default', 'MuxLeaf.encode_eq', 'MuxLeaf.decode_eq', 'C01_roundtrip_flat', 'C01_roundtrip_partial', 'C01_frame', 'tree_roundtrip', 'flat_core', 'Tree.encode_eq', 'Tree.decode_eq', 'Trees.good',
                                             # field tier (Props/C01Fields.lean, Proofs/FieldTier*.lean)
@@ -30,7 +30,10 @@ THEOREMS = ["OdxVerif.Codec." + t for t in ['C01_roundtrip_struct', 'C01_roundtr
                                                  'Obj.raw_decodes', 'Obj.canon_decodes']] + \
            ["OdxVerif.Text." + t for t in ['utf8_decode_encode', 'utf8_encode_decode', 'f32to64_f64to32', 'f64to32_f32to64',
                                            'utf16_decode_encode', 'utf16_encode_decode']] + \
-           ["OdxVerif.Bits." + t for t in ['bcd_roundtrip', 'bcdEnc_digit']]
+           ["OdxVerif.Bits." + t for t in ['bcd_roundtrip', 'bcdEnc_digit']] + \
+           # compu methods inside the codec model (Props/C01Compu.lean)
+           ["OdxVerif.Codec." + t for t in ['C01_roundtrip_linear_leaf', 'C01_linear_leaf_encode', 'C01_linear_leaf_decode',
+                                            'C01_compu_leaf_strict_encode', 'C01_compu_leaf_strict_decode']]
 RULE = ("well-formed descriptions (envelope wf of DESIGN §6/C01, by construction in harness/odxgen/gen.py) x canonical values "
         "(odxgen/values.py): corpus of past failures; every BYTE-SIZE structure size x offset; every (integer type, encoding, byte order, "
         "bit length, bit position) standard-length DOP with boundary values; floats/strings/byte fields x encodings x byte orders; random "
@@ -41,7 +44,10 @@ RULE = ("well-formed descriptions (envelope wf of DESIGN §6/C01, by constructio
         "negative / positive / global negative responses, every own encoding (DiagService.encode_request, Response.encode with the coded "
         "request) decoded by DiagService.decode_message, DiagLayer.decode and DiagLayer.decode_response and attributed to (service, coding "
         "object) with exactly the encoded values. distinct = distinct (description, value, trigger); non-trivial = the "
-        "encoder accepted and the PDU has more than one byte")
+        "encoder accepted and the PDU has more than one byte; family compu-grid (correspondence only, strict and non-strict mode, "
+        "harness/compu_grid.py): LINEAR x {coded types, physical types incl. real, negative / zero denominator, zero slope, OPEN limits}, ambiguous "
+        "/ empty TEXTTABLE scales, DTC-DOPs with LINEAR and duplicate codes, LENGTH-KEYs behind LINEAR DOPs with limits x right and wrong values "
+        "and PDUs - every 5th description per quick run, all in the thorough tier")
 TRUSTED = ["direct oracle harness/codec_oracles.py: decode(encode(v)) == complete(v) with `complete` (odxgen/values.py) written from the ODX "
            "semantics, not from the odxtools source; compu conversions are emulated exactly over Fraction",
            "descriptions are loaded through the real XML loader (Database._process_xml_tree + refresh)"]
@@ -404,6 +410,9 @@ def run(ctx):
     # (f) layer level: services sharing responses, every own encoding decoded by its service and by the layer
     layer_family(ctx, rep, corr, ctx.sub_rng("layers"), 1500 if big else 160, 3 if big else 2)
     corr.flush()
+    # (g) correspondence only, both modes: compu methods / DTC-DOPs / LINEAR length keys in corners the generators do not reach
+    import compu_grid
+    compu_grid.run_family(ctx, corr, stride=1 if big else 5, offset=ctx.rng.randrange(5))
 
 
 def replay(ctx, data):
